@@ -163,6 +163,19 @@ static int mode_rel(unsigned long long seed, int n)
 	    cx tmp[2][2];
 	    memcpy(tmp, m, sizeof(tmp));
 	    call(e, m, out, zi, z);
+	    if (is_zi) {
+		/* zi overlaying the first row of the input matrix, the call the in-place
+		 * vnadata_convert(vdp, vdp, VPT_ZIN) makes */
+		call(e, tmp, tmp, &tmp[0][0], z);
+		if (isfinite(creal(zi[0])) && isfinite(cimag(zi[0])) && isfinite(creal(zi[1])) &&
+			isfinite(cimag(zi[1])) && memcmp(&tmp[0][0], zi, 2 * sizeof(cx)) != 0 && !reported) {
+		    printf("ALIAS %s in=[%.17g%+.17gi %.17g%+.17gi %.17g%+.17gi %.17g%+.17gi] z0=[%.17g%+.17gi %.17g%+.17gi]\n",
+			   e->name, creal(m[0][0]), cimag(m[0][0]), creal(m[0][1]), cimag(m[0][1]),
+			   creal(m[1][0]), cimag(m[1][0]), creal(m[1][1]), cimag(m[1][1]),
+			   creal(z[0]), cimag(z[0]), creal(z[1]), cimag(z[1]));
+		    reported = 1;
+		}
+	    }
 	    if (!is_zi) {
 		call(e, tmp, tmp, zi, z);
 		if (finite4(out) && memcmp(tmp, out, sizeof(out)) != 0 && !reported) {
@@ -245,7 +258,11 @@ static int mode_eval(void)
 	cx m[2][2] = { { v[0] + I * v[1], v[2] + I * v[3] }, { v[4] + I * v[5], v[6] + I * v[7] } };
 	cx z[2] = { v[8] + I * v[9], v[10] + I * v[11] };
 	cx out[2][2], zi[2];
-	if (alias && e->kind != 4) {
+	if (alias && e->kind == 4) {
+	    call(e, m, m, &m[0][0], z);
+	    zi[0] = m[0][0];
+	    zi[1] = m[0][1];
+	} else if (alias) {
 	    call(e, m, m, zi, z);
 	    memcpy(out, m, sizeof(out));
 	} else {
